@@ -116,7 +116,49 @@ func concretise(s Shape) resource.Resource {
 	return r
 }
 
+// generic turns r into a resource of an unregistered type in the generic protobuf form, with a YAML spec and (both) protobuf bytes.
+func generic(r resource.Resource, both bool) resource.Resource {
+	md, err := protobuf.FromResource(r, protobuf.WithoutYAML())
+	if err != nil {
+		panic(err)
+	}
+
+	pm, err := md.Marshal()
+	if err != nil {
+		panic(err)
+	}
+
+	pm.Metadata.Type = "Unregistereds.verif.cosi.dev"
+	pm.Spec = &v1alpha1.Spec{YamlSpec: "foo: bar\n"}
+
+	if both {
+		pm.Spec.ProtoSpec = []byte{0x0a, 0x03, 'b', 'a', 'r'}
+	}
+
+	out, err := protobuf.Unmarshal(pm)
+	if err != nil {
+		panic(err)
+	}
+
+	return out
+}
+
+func specYAML(r resource.Resource) string {
+	out, err := yaml.Marshal(r.Spec())
+	if err != nil {
+		return "!" + err.Error()
+	}
+
+	return string(out)
+}
+
 func same(a, b resource.Resource) bool {
+	if _, ok := a.(*protobuf.Resource); ok {
+		// generic resources: equal, and the spec still renders as the same YAML
+		return resource.Equal(a, b) && a.Metadata().Created().Equal(b.Metadata().Created()) && a.Metadata().Updated().Equal(b.Metadata().Updated()) &&
+			specYAML(a) == specYAML(b)
+	}
+
 	return resource.Equal(a, b) && a.Metadata().Created().Equal(b.Metadata().Created()) && a.Metadata().Updated().Equal(b.Metadata().Updated()) &&
 		vh.SpecOf(a) == vh.SpecOf(b)
 }
@@ -229,6 +271,11 @@ func TestCodecs(t *testing.T) {
 	for si, s := range in.Shapes {
 		r := concretise(s)
 
+		isGeneric := strings.HasPrefix(s.Txt, "generic-")
+		if isGeneric {
+			r = generic(r, s.Txt == "generic-both")
+		}
+
 		// --- round trips ---
 		for _, name := range in.Stackings {
 			func() {
@@ -254,6 +301,11 @@ func TestCodecs(t *testing.T) {
 				l.Outcome, l.Note = decode(m, b, r)
 				evals++
 			}()
+		}
+
+		if isGeneric {
+			// the other codecs (wire form of typed resources, metadata YAML, text forms) are exercised by the typed shapes
+			continue
 		}
 
 		// protobuf wire form (with the YAML spec representation)
